@@ -49,7 +49,10 @@ func histories(c *vf.Ctx) {
 	purity.Check(c, "C01/history/lm.LMHash", "lm.LMHash", pw[:4], func(in []byte) [][]byte { return [][]byte{lm.LMHash(string(in))} })
 	purity.Check(c, "C01/history/lm.LMHashToHex", "lm.LMHashToHex", pw[:4], func(in []byte) [][]byte { return [][]byte{[]byte(lm.LMHashToHex(string(in)))} })
 	purity.Check(c, "C01/history/utf16.EncodeUTF16LE", "utf16.EncodeUTF16LE", pw, func(in []byte) [][]byte { return [][]byte{utf16.EncodeUTF16LE(string(in))} })
-	purity.Check(c, "C01/history/nt.NTHash", "nt.NTHash", pw, func(in []byte) [][]byte { h := nt.NTHash(string(in)); return [][]byte{h[:], []byte(nt.NTHashHex(string(in)))} })
+	purity.Check(c, "C01/history/nt.NTHash", "nt.NTHash", pw, func(in []byte) [][]byte {
+		h := nt.NTHash(string(in))
+		return [][]byte{h[:], []byte(nt.NTHashHex(string(in)))}
+	})
 	purity.Check(c, "C01/history/md4.Sum", "md4.Sum", [][]byte{{}, enum.Counter(55, 1), enum.Counter(56, 1), enum.Counter(64, 1), enum.Counter(130, 1)}, func(in []byte) [][]byte { h := md4.Sum(in); return [][]byte{h[:]} })
 	purity.Check(c, "C01/history/dcc+dcc2", "DCC(password,user=Admin)/DCC2", pw, func(in []byte) [][]byte {
 		h := dcc.DCCHashFromPassword(string(in), "Admin")
